@@ -226,9 +226,10 @@ def deterministic_requests(ctx):
     lim = SMALL_LIMIT_QUICK if ctx.quick else SMALL_LIMIT_THOROUGH
     files = small(lim)
     reqs = [("S", False, s) for s in DET_SOURCES]
+    reqs += [("S", c, s) for c, s in families()]
     reqs += [("S", c, open(p, "rb").read()) for p, c in corpus()]
     reqs += [("F", c, p) for p, c in files]
-    return reqs, len(DET_SOURCES), len(corpus()), files
+    return reqs, len(DET_SOURCES) + len(families()), len(corpus()), files
 
 
 def seeded_requests(ctx, n):
@@ -280,7 +281,9 @@ def run_property(ctx, field, good, what):
     hist = shape_hist(res)
     ctx.cover(evaluations=len(res) + len(sres), distinct_nontrivial=len(set(r["sha"] for r in res + sres if r["parse"] == "ok")),
               samples=[dict(res[i]) for i in (0, ndet + 3, len(res) // 2, len(res) - 5) if i < len(res)],
-              rule="deterministic (seed-independent): %d witness sources + the %d XGo/class files of the repository + a comment (\"/*C*/\" and \"//C\\n\") inserted "
+              rule="deterministic (seed-independent): %d witness and family sources (token adjacency: every operator x every prefix operator in "
+                   "normal and compact contexts; comment layout: block/line comments x indentation x nesting level x container; comment sizes "
+                   "across the printer's 30/40/100 limits in one-line bodies, blocks, literals, struct/interface types) + the %d XGo/class files of the repository + a comment (\"/*C*/\" and \"//C\\n\") inserted "
                    "before EVERY token of the %d files <= %d bytes under printer/_testdata, parser/_testdata, demo (%d sources, %d of them parse; a variant that "
                    "does not parse makes no claim); seeded: %d generated sources with layout perturbations (%d parse); generator does not produce: a bare "
                    "parenthesised lambda as if/for/switch condition, comments inside expressions (both are in the deterministic set); non-trivial = distinct "
@@ -289,3 +292,162 @@ def run_property(ctx, field, good, what):
               result_histogram=hist, deterministic_sources=len(res), deterministic_valid=nvalid, seeded_sources=len(sres), seeded_valid=svalid,
               deterministic_failing=nfail)
     return res, sres
+
+
+# ---------------------------------------------------------------------------------------------
+# deterministic families (seed-independent, run on every run of C19/C20/C21)
+
+PREFIX_OPS = ["+", "-", "!", "^", "&", "<-", "*"]
+BIN_OPS_ALL = BINOPS + ["->", "<>"]
+
+
+def family_adjacency():
+    """token adjacency: EVERY operator / prefix operator directly followed by EVERY prefix operator (not only the pairs of
+    the current mayCombine table, so that a pair dropped from the table is still exercised), in normal mode and in the
+    printer's compact modes (several call arguments, index, slice/composite literal elements, with a higher-precedence
+    right operand that starts with the prefix operator)."""
+    out = []
+    for o2 in PREFIX_OPS:
+        for o1 in PREFIX_OPS:                       # unary chains
+            out.append("x := %s %sa\n" % (o1, o2))
+            out.append("func f(a int) int {\n\treturn %s %sa\n}\n" % (o1, o2))
+            out.append("x := f(%s %sa, b)\n" % (o1, o2))
+            out.append("x := %s %s %sa\n" % (o1, o2, o2))
+        for o1 in BIN_OPS_ALL:                      # binary operator, then a unary operand
+            out.append("x := a %s %sb\n" % (o1, o2))
+            out.append("x := f(a %s %sb, d)\n" % (o1, o2))
+            out.append("x := f(a %s %sb*c, d)\n" % (o1, o2))           # compact mode, unary leads a tighter right operand
+            out.append("x := f(a %s %sb.g(c)*c, d)\n" % (o1, o2))
+            out.append("x := s[a %s %sb*c]\n" % (o1, o2))
+            out.append("x := [a %s %sb*c, d]\n" % (o1, o2))
+            out.append("x := T{k: a %s %sb*c, j: d}\n" % (o1, o2))
+            out.append("x := a*b %s %sb*c %s d\n" % (o1, o2, o1))
+            out.append("println a %s %sb*c, d\n" % (o1, o2))
+            out.append("x := (a %s %sb) * c\n" % (o1, o2))
+        out.append("ch <- %sb\n" % o2)             # send statement
+        out.append("x := a[1:%sb]\n" % o2)
+        out.append("x := 1 .f + %sb\n" % o2)
+    out += ["x := 1 .f\n", "x := a / *p\n", "x := a & ^b\n", "x := a < <-c\n", "x := a - -1\n", "x := - -1\n", "x := 2 - -a.b\n"]
+    return [(False, s.encode()) for s in out]
+
+
+def _nest(level, container, body_lines):
+    """body_lines placed at block nesting `level` inside the container; returns (is_class, source)"""
+    cls = container == "class"
+    src = ""
+    base = 0
+    if container in ("func", "class"):
+        if cls:
+            src += "var (\n\tn int\n)\n\n"
+        src += "func f() {\n"
+        base = 1
+    else:
+        src += "x := 1\n"
+    opened = 0
+    while base + opened < level:
+        src += "\t" * (base + opened) + "if x > %d {\n" % opened
+        opened += 1
+    ind = "\t" * (base + opened)
+    src += ind + "y()\n"
+    src += "".join(body_lines)
+    src += ind + "z()\n"
+    for k in range(opened - 1, -1, -1):
+        src += "\t" * (base + k) + "}\n"
+    if base:
+        src += "}\n"
+    return cls, src
+
+
+def family_comment_layout():
+    """multi-line block comments and line comments: {first line bare "/*" | "/* text"} x {text lines unindented | 1 | 2 tabs |
+    line of stars} x {block nesting level 0..3} x {comment in column 1 | indented like the code} x {script | func body |
+    class file}; the comment before a statement, and as the last thing of its block."""
+    out = []
+    for container in ("script", "func", "class"):
+        for level in range(0, 4):
+            if container != "script" and level == 0:
+                continue
+            for col1 in (True, False):
+                pre = "" if col1 else "\t" * level
+                for first in ("/*", "/* head"):
+                    for text in ("", "\t", "\t\t", " * "):
+                        lines = [pre + first + "\n", pre + text + "aaa\n", pre + text + "bbb\n", pre + ("*/" if text != " * " else " */") + "\n"]
+                        out.append(_nest(level, container, lines))
+                for lc in ("// one\n", "// one\n" + pre + "// two\n", "//go:noinline\n", "# sharp\n"):
+                    out.append(_nest(level, container, [pre + lc]))
+                out.append(_nest(level, container, [pre + "/* one line */\n"]))
+                out.append(_nest(level, container, [pre + "/*\n", "aaa\n", pre + "\tbbb\n", "*/\n"]))     # mixed indentation
+    # as the last item of a block / file, and between declarations
+    for first in ("/*", "/* head"):
+        for text in ("", "\t"):
+            c = first + "\n" + text + "aaa\n" + text + "bbb\n*/\n"
+            out.append((False, "func f() {\n\ty()\n" + c + "}\n"))
+            out.append((False, "func f() {\n\ty()\n}\n\n" + c + "\nfunc g() {\n}\n"))
+            out.append((False, "x := 1\nif x > 0 {\n\ty()\n" + c + "}\n"))
+            out.append((False, "x := 1\n" + c))
+            out.append((False, "type T struct {\n" + c + "\ta int\n}\n"))
+            out.append((False, "var (\n" + c + "\ta int\n)\n"))
+            out.append((False, "switch x {\ncase 1:\n" + c + "\ty()\n}\n"))
+            out.append((False, "x := [\n" + c + "\t1,\n]\n"))
+    return [(cls, s.encode()) for cls, s in out]
+
+
+def _com(n, k=0):
+    """a block comment of exactly n bytes"""
+    body = ("c%d " % k) + "long comment text " * 12
+    return "/*" + body[:max(0, n - 4)] + "*/" if n >= 4 else "/**/"
+
+
+SIZES = [10, 29, 30, 31, 39, 40, 41, 59, 60, 61, 90, 98, 99, 100, 101, 102, 150, 250]
+
+
+def family_comment_sizes():
+    """one-line bodies, blocks, literals, struct and interface types holding comments whose total size runs across the
+    printer's limits (isOneLineFieldList 30, exprList 40, funcBody/bodySize 100), as one group and as several groups."""
+    out = []
+    for n in SIZES:
+        c = _com(n)
+        out += [
+            "func f() { %s }\n\n// trailing\n" % c,
+            "func f() { x() %s }\n\n// trailing\n" % c,
+            "func f() { %s x() }\n" % c,
+            "func k() { /* a */ x(); %s }\n" % c,
+            "func k() { %s x(); /* b */ }\n" % c,
+            "func k() { /* a */ /* b */ %s /* d */ }\n" % c,
+            "var h = func() { y() /* first */ %s /* third */ }\n\n// trailing\n" % c,
+            "var h = func() { %s }\n" % c,
+            "x := func(a int) int { return a %s }\n" % c,
+            "go func() { %s }()\n" % c,
+            "f(func() { %s }, 1)\n" % c,
+            "onStart => { %s }\n" % c,
+            "x := (a, b) => { y() %s }\n" % c,
+            "x := 1\nif x > 0 { y() %s }\n" % c,
+            "for i <- 0:3 { %s }\n" % c,
+            "type T struct { a int %s }\n" % c,
+            "type T struct { %s a, b int }\n" % c,
+            "type T struct { a int; %s b string }\n" % c,
+            "type I interface { M() %s }\n" % c,
+            "type I interface { %s }\n" % c,
+            "func f(a struct{ x int %s }) {\n}\n" % c,
+            "x := T{a: 1 %s}\n" % c,
+            "x := T{%s a: 1, b: 2}\n" % c,
+            "x := [1, 2 %s, 3]\n" % c,
+            "x := {\"k\": 1 %s}\n" % c,
+            "x := f(a, %s b)\n" % c,
+            "x := T{\n\tshort: 1, %s\n\tmuchLongerFieldNameForAlignmentDecisions: 2,\n}\n" % c,
+            "func (p *T) m() { %s }\n" % c,
+            "func f() (r int) { %s return }\n" % c,
+        ]
+        # the same total split over several comment groups
+        a, b = _com(n // 2, 1), _com(n - n // 2, 2)
+        out += [
+            "func f() { %s x(); %s }\n" % (a, b),
+            "func f() { %s %s }\n" % (a, b),
+            "var h = func() { %s y(); %s }\n" % (a, b),
+            "type T struct { a int %s; b int %s }\n" % (a, b),
+        ]
+    return [(False, s.encode()) for s in out]
+
+
+def families():
+    return family_adjacency() + family_comment_layout() + family_comment_sizes()
